@@ -71,6 +71,11 @@ pub struct Monitors {
     /// channels whose wait list is being torn down right now (terminate_signals in progress):
     /// entries may refer to waiters that were already released
     teardown: Vec<usize>,
+    /// registered channels: (address of the ChannelInternal, address of its lock, function that reads the REAL wait list)
+    chans: Vec<(usize, usize, fn(usize) -> Vec<usize>)>,
+    /// waiters that were retired while listed and while another task was inside the channel's critical section
+    /// (the list is in flux): judged when that critical section ends. (lock, channel, waiter, region ordinal)
+    deferred: Vec<(usize, usize, usize, u32)>,
     cs_owner: Vec<(usize, Option<usize>, u64)>,
     pub accesses: u64,
     pub cross_accesses: u64,
@@ -344,14 +349,21 @@ pub fn retire(sig: usize) {
         r.live = false;
         return;
     }
-    // (1) the channel must not still list the waiter
-    let listed = e.mon.waitlists.iter().any(|(c, l)| l.contains(&sig) && !e.mon.teardown.contains(c));
-    if listed {
+    // (1) the channel must not still list the waiter. The REAL wait list is read (H9), not a mirror; if another task
+    // is inside the channel's critical section right now the list is in flux (a tear-down or a drain walks it and
+    // releases waiters one by one): the verdict is taken when that critical section ends.
+    if let Some((chan, lock)) = listed_really(e, sig) {
         let ord = e.mon.regions.iter().find(|r| r.live && r.sig.0 == sig).map(|r| r.ord).unwrap_or(0);
-        violation(
-            "life/listed-at-retire",
-            format!("waiter region #{} is retired while the channel's wait list still refers to it", ord),
-        );
+        let cur = e.current;
+        let held_by_other = e.mon.cs_owner.iter().any(|(l, o, _)| *l == lock && o.map_or(false, |t| t != cur));
+        if held_by_other {
+            e.mon.deferred.push((lock, chan, sig, ord));
+        } else {
+            violation(
+                "life/listed-at-retire",
+                format!("waiter region #{} is retired while the channel's wait list still refers to it", ord),
+            );
+        }
     }
     // (3) every peer access must be ordered before the owner's return
     owner_write_region(e, sig, "owner-returns");
@@ -383,6 +395,36 @@ pub fn peer(_sig: usize) -> PeerGuard {
         e.tasks[cur].peer_depth += 1;
     }
     PeerGuard
+}
+
+/// H9: a channel makes its real wait list readable (idempotent; called whenever the channel lock is taken).
+pub fn wl_register(chan: usize, lock: usize, lister: fn(usize) -> Vec<usize>) {
+    let Some(e) = ex() else { return };
+    if !e.mon.chans.iter().any(|c| c.0 == chan) {
+        e.mon.chans.push((chan, lock, lister));
+    }
+}
+
+/// the channel's memory is going away
+pub fn wl_unregister(chan: usize) {
+    if let Some(e) = ex() {
+        e.mon.chans.retain(|c| c.0 != chan);
+        e.mon.deferred.retain(|d| d.1 != chan);
+    }
+}
+
+/// Is this waiter in the wait list of a registered channel right now? All tasks of a run share one OS thread and are
+/// switched only at scheduling points, none of which lies inside an operation on the list: the read is exact.
+fn listed_really(e: &crate::exec::Exec, sig: usize) -> Option<(usize, usize)> {
+    for (chan, lock, lister) in e.mon.chans.iter() {
+        if e.mon.teardown.contains(chan) {
+            continue;
+        }
+        if lister(*chan).contains(&sig) {
+            return Some((*chan, *lock));
+        }
+    }
+    None
 }
 
 /// Exact content of a channel's wait list after a ChannelInternal method.
@@ -424,7 +466,7 @@ pub fn unbounded_wait(sig: usize) {
     if e.abort.is_some() {
         return;
     }
-    let listed = e.mon.waitlists.iter().any(|(c, l)| l.contains(&sig) && !e.mon.teardown.contains(c));
+    let listed = listed_really(e, sig).is_some();
     if listed {
         violation(
             "wait/unclaimed",
@@ -490,6 +532,20 @@ pub fn cs_enter(lock: usize) {
 
 pub fn cs_leave(lock: usize) {
     let Some(e) = ex() else { return };
+    // waiters retired while this critical section was open: still listed now that it ends?
+    if e.abort.is_none() && e.mon.deferred.iter().any(|d| d.0 == lock) {
+        let mine: Vec<(usize, usize, usize, u32)> = e.mon.deferred.iter().filter(|d| d.0 == lock).cloned().collect();
+        e.mon.deferred.retain(|d| d.0 != lock);
+        for (_, chan, sig, ord) in mine {
+            let still = e.mon.chans.iter().find(|c| c.0 == chan).map_or(false, |c| !e.mon.teardown.contains(&chan) && (c.2)(chan).contains(&sig));
+            if still {
+                violation(
+                    "life/listed-at-retire",
+                    format!("waiter region #{} was retired during a critical section of another task and is still in the channel's wait list when that critical section ends", ord),
+                );
+            }
+        }
+    }
     let cur = e.current;
     if e.tasks[cur].in_cs > 0 {
         e.tasks[cur].in_cs -= 1;
